@@ -71,3 +71,67 @@ func VerifTrackerRun(gw string, evs []VerifTrackerEv, query []int) (reached []bo
 	}
 	return
 }
+
+// VerifTrackerBatch feeds evs — the second half of them as ONE batch (what the tracker drains without seeing its channel
+// empty) after the first `pre` events were handled one batch each — to a fresh flow tracker of gw and returns whether the
+// batch changed the tracker's records and whether the tracker would wake the node after it (the `notify` flag of its run
+// loop, threaded through the batch exactly as the loop does).
+func VerifTrackerBatch(gw string, evs []VerifTrackerEv, pre int) (changed, notify bool) {
+	el := schema.DefaultInclusiveGateway()
+	el.SetId(&gw)
+	tracker := &flowTracker{flows: make(map[id.Id]schema.Id), element: &el}
+	mk := func(ev VerifTrackerEv) interface{} {
+		if ev.Term {
+			return TerminationTrace{FlowId: verifFlowId(ev.Tok)}
+		}
+		var src schema.FlowNodeInterface
+		sid := ev.Src
+		if ev.SrcIncl {
+			g := schema.DefaultInclusiveGateway()
+			g.SetId(&sid)
+			src = &g
+		} else {
+			t := schema.DefaultTask()
+			t.SetId(&sid)
+			src = &t
+		}
+		snaps := make([]Snapshot, len(ev.Toks))
+		for i, tok := range ev.Toks {
+			sf := schema.DefaultSequenceFlow()
+			dst := schema.IdRef(ev.Dsts[i])
+			sf.SetTargetRef(dst)
+			snaps[i] = Snapshot{flowId: verifFlowId(tok), sequenceFlow: NewSequenceFlow(&sf, nil)}
+		}
+		return FlowTrace{Source: src, Flows: snaps}
+	}
+	r := false
+	for i := 0; i < pre && i < len(evs); i++ {
+		switch t := mk(evs[i]).(type) {
+		case TerminationTrace:
+			_, _, r = tracker.handleTrace(true, t, false, r)
+		case FlowTrace:
+			_, _, r = tracker.handleTrace(true, t, false, r)
+		}
+	}
+	before := make(map[string]string, len(tracker.flows))
+	for k, v := range tracker.flows {
+		before[k.String()] = string(v)
+	}
+	for i := pre; i < len(evs); i++ {
+		switch t := mk(evs[i]).(type) {
+		case TerminationTrace:
+			_, notify, r = tracker.handleTrace(true, t, notify, r)
+		case FlowTrace:
+			_, notify, r = tracker.handleTrace(true, t, notify, r)
+		}
+	}
+	if len(before) != len(tracker.flows) {
+		changed = true
+	}
+	for k, v := range tracker.flows {
+		if b, ok := before[k.String()]; !ok || b != string(v) {
+			changed = true
+		}
+	}
+	return
+}
